@@ -178,9 +178,24 @@ def c14_post(c):
         return
     binp = os.path.join(tdir, "debug", "pushr")
     compared = 0
+    # hostile environment: the front end runs in a directory that holds, for every program, a FILE whose name is exactly
+    # the program text (with other code in it): the argument is program text, never a path, whatever the surroundings
+    envdir = os.path.join(c["wdir"], "cli-env")
+    os.makedirs(envdir, exist_ok=True)
+    decoys = 0
+    for cs in cases:
+        t = cs["text"]
+        if "/" not in t and "\0" not in t and 0 < len(t.encode()) <= 200 and t not in (".", ".."):
+            try:
+                with open(os.path.join(envdir, t), "w") as f:
+                    f.write("( 424242 424242 )")
+                decoys += 1
+            except OSError:
+                pass
+    c["extra"]["cli_decoy_files"] = decoys
     for cs in cases:
         try:
-            r = subprocess.run([binp, cs["text"]], stdout=subprocess.PIPE, stderr=subprocess.STDOUT, text=True, timeout=60)
+            r = subprocess.run([binp, cs["text"]], cwd=envdir, stdout=subprocess.PIPE, stderr=subprocess.STDOUT, text=True, timeout=60)
         except subprocess.TimeoutExpired:
             agg.add_violation(c["prop"], "cli|does-not-terminate", "the front end did not finish a program the library finishes: %s" % cs["text"][:300])
             continue
